@@ -146,7 +146,7 @@ def merge(ck, results, key_fn=None):
     return counters
 
 
-def grammar_stream(rng, n, families=("pool", "random", "mutant"), error_p=0.0, strict=None, **kw):
+def grammar_stream(rng, n, families=("pool", "random", "mutant", "random", "ctx"), error_p=0.0, strict=None, **kw):
     """Yield (name, g, strict) accepted grammars."""
     pool = gen.pool()
     out = []
@@ -165,6 +165,14 @@ def grammar_stream(rng, n, families=("pool", "random", "mutant"), error_p=0.0, s
         elif fam == "random":
             g, s = gen.accepted_random_grammar(rng, strict=strict, error_p=error_p, **kw)
             out.append(("random", g, s))
+        elif fam == "ctx":
+            g = gen.context_chain_grammar(rng)
+            s = 1 if not oracle.wf(g, 1) else 0
+            if strict is not None and s != strict:
+                continue
+            if oracle.wf(g, s):
+                continue
+            out.append(("context_chain", g, s))
         else:
             name, g = pool[rng.randrange(len(pool))]
             for _ in range(rng.randrange(1, 4)):
